@@ -36,7 +36,9 @@ LEVEL_NOTE = ('Trusted: Lean kernel (axioms propext, Classical.choice, Quot.soun
 TECHNIQUE = 'Lean 4 proof (mutual structural induction on conditional trees, well-founded interpreter) + differential correspondence (component and document level)'
 TRUSTED = ['operand scanning (TeX.readInteger/readDimen), \\value, macro expansion and argument parsing are tied by the cond stream only',
            'scope of counters, \\newif switches and \\gdef (global) is an assumption of the model tied by the cond stream (groups are generated)']
-ASSUMPTIONS = ['NF-prog (DESIGN.md section 5): number/dimension literals are \\relax-terminated, conditionals well nested in every macro body, argument and group',
+ASSUMPTIONS = ['\\newcount/\\newdimen registers used as operands are assigned in the preamble only (their scope is C04/C17 matter); '
+               'an integer literal directly followed by a count register (a product in plasTeX, not a TeX <number>) is not generated',
+               'NF-prog (DESIGN.md section 5): number/dimension literals are \\relax-terminated, conditionals well nested in every macro body, argument and group',
                'a boolean conditional contains no \\or at its own level; \\ifx compares two letters or two parameterless macros with plain-text bodies',
                'dimension literals are exactly representable (integer sp, multiples of 0.5pt)',
                'switches are tested only after their \\newif was executed; a switch is declared at most once',
@@ -49,7 +51,7 @@ CASE_TIMEOUT = 20
 
 logging.disable(logging.CRITICAL)
 
-NCOUNTERS, NSWITCHES = 6, 3
+NCOUNTERS, NSWITCHES, NREGS = 6, 3, 3
 TEXTCHARS = 'ABCDEFGHIJKLMNOPQRSTUVWXYZabcdefghijklmnopqrstuvwxyz0123456789'
 
 # ---------------------------------------------------------------- words <-> trees
@@ -64,7 +66,10 @@ def letters(n):
             return s
 
 
-def op_w(o): return o[0] + str(o[1])
+def op_w(o):
+    if o[0] == '-': return '-' + op_w(o[1])
+    if o[0] == 'k': return 'k%dx%d' % (o[1], o[2])
+    return o[0] + str(o[1])
 def xt_w(x): return 'c%d' % x[1] if x[0] == 'c' else 'm' + '.'.join([str(x[1])] + [str(c) for c in x[2]])
 
 
@@ -72,7 +77,7 @@ def test_w(t):
     k = t[0]
     if k in 'TF': return k
     if k == 'N': return 'N:%s:%s:%s' % (op_w(t[1]), t[2], op_w(t[3]))
-    if k == 'D': return 'D:%d:%s:%d' % (t[1], t[2], t[3])
+    if k == 'D': return 'D:%s:%s:%s' % (op_w(t[1]), t[2], op_w(t[3]))
     if k in 'OK': return '%s:%s' % (k, op_w(t[1]))
     if k == 'X': return 'X:%s:%s' % (xt_w(t[1]), xt_w(t[2]))
     if k in 'GS': return '%s:%d' % (k, t[1])
@@ -107,7 +112,12 @@ def body_w(b):
     return out + [']']
 
 
-def p_op(s): return [s[0], int(s[1:])]
+def p_op(s):
+    if s[0] == '-': return ['-', p_op(s[1:])]
+    if s[0] == 'k':
+        a, b = s[1:].split('x')
+        return ['k', int(a), int(b)]
+    return [s[0], int(s[1:])]
 def p_xt(s):
     if s[0] == 'c': return ['c', int(s[1:])]
     parts = s[1:].split('.')
@@ -119,7 +129,7 @@ def p_test(s):
     k = f[0]
     if k in 'TF': return [k]
     if k == 'N': return ['N', p_op(f[1]), f[2], p_op(f[3])]
-    if k == 'D': return ['D', int(f[1]), f[2], int(f[3])]
+    if k == 'D': return ['D', p_op(f[1]), f[2], p_op(f[3])]
     if k in 'OK': return [k, p_op(f[1])]
     if k == 'X': return ['X', p_xt(f[1]), p_xt(f[2])]
     if k in 'GS': return [k, int(f[1])]
@@ -172,10 +182,25 @@ class Env:
 
 
 def gen_operand(rng, lo=-2, hi=6):
+    """TeX's <number>: optional signs, then a literal, \\value, a macro-produced literal or a \\newcount register"""
     r = rng.random()
-    if r < 0.45: return ['l', rng.randint(lo, hi)]
-    if r < 0.8: return ['c', rng.randrange(NCOUNTERS)]
+    if r < 0.18: return ['-', gen_operand(rng, lo, hi)]
+    if r < 0.50: return ['l', rng.randint(lo, hi)]
+    if r < 0.72: return ['c', rng.randrange(NCOUNTERS)]
+    if r < 0.86: return ['r', rng.randrange(NREGS)]
     return ['m', rng.randint(lo, hi)]
+
+
+DIMS = [0, 1, 3, 32768, 65536, 98304, 65536 * 3, 65536 * 12, 655360, 65537]
+
+
+def gen_doperand(rng):
+    """TeX's <dimen>: optional signs, then a literal, a \\newdimen register or an integer factor times one"""
+    r = rng.random()
+    if r < 0.18: return ['-', gen_doperand(rng)]
+    if r < 0.62: return ['l', rng.choice([1, -1, 1, 1]) * rng.choice(DIMS)]
+    if r < 0.86: return ['r', rng.randrange(NREGS)]
+    return ['k', rng.randint(0, 3), rng.randrange(NREGS)]
 
 
 def gen_xtok(rng):
@@ -190,9 +215,8 @@ def gen_test(rng, switches):
     if r < 0.16: return ['F']
     if r < 0.38: return ['N', gen_operand(rng), rng.choice(['lt', 'gt', 'eq']), gen_operand(rng)]
     if r < 0.48:
-        def d(): return rng.choice([1, -1, 1, 1]) * rng.choice([0, 1, 3, 32768, 65536, 98304, 65536 * 3, 65536 * 12, 655360, 65537])
-        a = d()
-        return ['D', a, rng.choice(['lt', 'gt', 'eq']), a if rng.random() < 0.2 else d()]
+        a = gen_doperand(rng)
+        return ['D', a, rng.choice(['lt', 'gt', 'eq']), a if rng.random() < 0.2 else gen_doperand(rng)]
     if r < 0.58: return ['O', gen_operand(rng, -5, 9)]
     if r < 0.76: return ['K', gen_operand(rng, -3, 7)]
     if r < 0.84:
@@ -246,11 +270,24 @@ def gen_body(env, depth, switches, maxitems=4):
 
 
 def gen_init(rng):
-    return [rng.randint(-1, 4) for _ in range(NCOUNTERS)]
+    """initial state word: counters ; count registers ; dimen registers (sp)"""
+    cs = [rng.randint(-1, 4) for _ in range(NCOUNTERS)]
+    rs = [rng.randint(-3, 6) for _ in range(NREGS)]
+    ds = [rng.choice([1, -1, 1]) * rng.choice(DIMS) for _ in range(NREGS)]
+    return ';'.join(','.join(str(x) for x in l) for l in (cs, rs, ds))
+
+
+def parse_init(w):
+    parts = [[int(x) for x in p.split(',')] for p in w.split(';')]
+    while len(parts) < 3:
+        parts.append([])
+    return [p + [0] * (n - len(p)) for p, n in zip(parts, (NCOUNTERS, NREGS, NREGS))]
 
 
 def mk_cond(init, body, seed):
-    return Case('cond', ','.join(str(x) for x in init) + ' ' + ' '.join(body_w(body)), {'seed': seed})
+    if not isinstance(init, str):
+        init = ','.join(str(x) for x in init)
+    return Case('cond', init + ' ' + ' '.join(body_w(body)), {'seed': seed})
 
 
 def gen_cond_case(rng, origin='gen'):
@@ -298,7 +335,7 @@ def gen_raw_tokens(rng, doc):
     while len(out) < k:
         r = rng.random()
         if r < 0.35:
-            w = rng.choice(['iT', 'iF', 'iK:l1', 'iK:c3', 'iK:l-1', 'iS:0', 'iS:1', 'iN:l1:lt:l2', 'iN:c1:gt:l1', 'iO:c2', 'iG:0', 'iG:3'])
+            w = rng.choice(['iT', 'iF', 'iK:l1', 'iK:c3', 'iK:l-1', 'iK:-r1', 'iN:-r0:lt:-c1', 'iD:-r0:lt:k2x1', 'iS:0', 'iS:1', 'iN:l1:lt:l2', 'iN:c1:gt:l1', 'iO:c2', 'iG:0', 'iG:3'])
             if doc and rng.random() < 0.04: w = 'iN:l1:bad:l2'
             depth += 1
         elif r < 0.55: w = 'fi'
@@ -329,7 +366,7 @@ def generate(ctx):
         w = rng.choice(['T', 'F', 'F'] + [str(i) for i in range(-3, 6)])
         yield Case('ifscan', w + ' ' + ' '.join(gen_raw_tokens(rng, False)), {})
     for _ in range(n // 6):
-        yield Case('toks', ','.join(str(x) for x in gen_init(rng)) + ' ' + ' '.join(gen_raw_tokens(rng, True)), {'seed': rng.randrange(1 << 30)})
+        yield Case('toks', gen_init(rng) + ' ' + ' '.join(gen_raw_tokens(rng, True)), {'seed': rng.randrange(1 << 30)})
 
 
 def corpus():
@@ -350,6 +387,9 @@ def corpus():
         # nesting: inner \else/\fi inside skipped and taken branches
         mk('cond', z + ' [ cF 1 1 [ cT 1 1 [ tc65 ts0 ] [ tc66 ts1 ] tc67 ] [ cT 0 1 [ tc68 ] ts2 ] tc88 ]'),
         mk('cond', '1,2,3,4,5,6 [ cN:c0:lt:c1 1 1 [ ts0 ts0 cN:c0:lt:c1 1 1 [ tc65 ] [ tc66 ] ] [ tc67 ] n5 cS:5 1 1 [ tc68 ] [ tw5:1 cS:5 0 1 [ tc69 ] ] ]'),
+        # signed internal quantities: -\\reg, --\\reg, -\\value, -\\dimreg, 2\\dimreg (readInteger/readDimen sign handling)
+        mk('cond', '0,0,0,2,0,0;3,-2,0;131072,-65536,0 [ cN:-r0:lt:l0 1 1 [ tc78 ] [ tc80 ] cK:-r1 1 4 [ tc48 ] [ tc49 ] [ tc50 ] [ tc51 ] [ tc69 ] '
+                   'cD:-r0:eq:l-131072 1 1 [ tc89 ] [ tc90 ] cN:--r0:eq:l3 0 1 [ tc68 ] cO:-c3 1 1 [ tc79 ] [ tc69 ] cD:-k2x1:gt:r0 1 1 [ tc71 ] [ tc76 ] cK:-r0 1 2 [ tc97 ] [ tc98 ] [ tc99 ] ]'),
         mk('toks', z + ' iF oc65', {'seed': 1}),
         mk('toks', z + ' fi oc65 else oc66 or oc67', {'seed': 1}),
     ]
@@ -366,6 +406,8 @@ def nontrivial(o):
 # ---------------------------------------------------------------- spelling (tree -> LaTeX)
 
 CNT = ['c' + chr(97 + i) for i in range(NCOUNTERS)]
+REG = ['rg' + chr(97 + i) for i in range(NREGS)]      # \newcount registers
+DREG = ['dg' + chr(97 + i) for i in range(NREGS)]     # \newdimen registers
 def swname(k): return 'sw' + letters(k)
 def nmname(n): return 'nm' + ('m' if n < 0 else 'p') + letters(abs(n))
 def xtname(x): return 'xt' + letters(x[1]) + 'q' + ''.join(chr(c) for c in x[2])
@@ -392,6 +434,10 @@ class Speller:
 
     def operand(self, o, param=None):
         """returns (text, needs a terminating \\relax)"""
+        if o[0] == '-':
+            inner, need = self.operand(o[1], param)
+            return '-' + (' ' if self.rng.random() < 0.3 else '') + inner, need
+        if o[0] == 'r': return '\\%s' % REG[o[1]] + (' ' if self.rng.random() < 0.3 else ''), True
         if o[0] == 'l': return self.num(o[1]), True
         if o[0] == 'c': return '\\value{%s}' % CNT[o[1]], True     # NF-prog 2 (O5): also after \value
         if param is not None and param[0] is o:
@@ -400,7 +446,11 @@ class Speller:
         self.pre[name] = '\\def\\%s{%d}' % (name, o[1])
         return '\\' + name + (' ' if self.rng.random() < 0.5 else ''), True
 
-    def dim(self, v):
+    def dim(self, o):
+        if o[0] == '-': return '-' + (' ' if self.rng.random() < 0.3 else '') + self.dim(o[1])
+        if o[0] == 'r': return '\\%s' % DREG[o[1]] + (' ' if self.rng.random() < 0.3 else '')
+        if o[0] == 'k': return '%d\\%s' % (o[1], DREG[o[2]]) + (' ' if self.rng.random() < 0.3 else '')
+        v = o[1]
         opts = ['%dsp' % v]
         if v % 65536 == 0: opts += ['%dpt' % (v // 65536)] * 3
         elif v % 32768 == 0: opts += [('-' if v < 0 else '') + '%d.5pt' % (abs(v) // 65536)] * 3
@@ -451,7 +501,7 @@ class Speller:
         _, t, he, cases, e = i
         param = None
         if not self.plain and not indef and rng.random() < 0.25:
-            ops = [o for o in t[1:] if isinstance(o, list) and o and o[0] == 'm']
+            ops = [m for m in (find_mac(o) for o in t[1:]) if m is not None] if t[0] in 'NOK' else []
             if ops:
                 param = (ops[0], '#1')
         inner_indef = indef or param is not None
@@ -512,6 +562,13 @@ class Speller:
         return ''.join(self.one(it, indef, stack) for it in seg)
 
 
+def find_mac(o):
+    """the macro-produced literal inside an operand (under any signs), if any"""
+    while isinstance(o, list) and o and o[0] == '-':
+        o = o[1]
+    return o if isinstance(o, list) and o and o[0] == 'm' else None
+
+
 def balanced(seg):
     d = 0
     for it in seg:
@@ -525,8 +582,13 @@ def balanced(seg):
 def preamble(init, sp, cls):
     s = '\\documentclass{article}' if cls else ''
     s += '\\begin{document}'
-    for i, v in enumerate(init):
+    cs, rs, ds = init
+    for i, v in enumerate(cs):
         s += '\\newcounter{%s}\\setcounter{%s}{%d}' % (CNT[i], CNT[i], v)
+    for i, v in enumerate(rs):
+        s += '\\newcount\\%s \\%s=%d\\relax ' % (REG[i], REG[i], v)
+    for i, v in enumerate(ds):
+        s += '\\newdimen\\%s \\%s=%dsp\\relax ' % (DREG[i], DREG[i], v)
     for k in range(NSWITCHES):
         s += '\\newif\\if%s ' % swname(k)
     s += '\\def\\dfa{}\\def\\dfb{}'
@@ -605,7 +667,14 @@ def real_tokens(words):
             owner[id(t)] = (wi, si, len(group))
             toks.append(t)
     def num(n): return [Other(c) for c in str(n)] + [EscapeSequence('relax')]
+    def dopnd(o):
+        if o[0] == '-': return [Other('-')] + dopnd(o[1])
+        if o[0] == 'r': return [EscapeSequence(DREG[o[1]])]
+        if o[0] == 'k': return [Other(c) for c in str(o[1])] + [EscapeSequence(DREG[o[2]])]
+        return [Other(c) for c in '%dsp' % o[1]]
     def opnd(o):
+        if o[0] == '-': return [Other('-')] + opnd(o[1])
+        if o[0] == 'r': return [EscapeSequence(REG[o[1]])]
         if o[0] == 'l': return num(o[1])
         if o[0] == 'c': return [EscapeSequence('value'), Other('{'), Letter('c'), Letter(chr(97 + o[1])), Other('}')]
         return [EscapeSequence(nmname(o[1]))]
@@ -618,7 +687,7 @@ def real_tokens(words):
             if k == 'T': g = [EscapeSequence('iftrue')]
             elif k == 'F': g = [EscapeSequence('iffalse')]
             elif k == 'N': g = [EscapeSequence('ifnum')] + opnd(t[1]) + [Other({'lt': '<', 'gt': '>', 'eq': '=', 'bad': '?'}[t[2]])] + opnd(t[3])
-            elif k == 'D': g = [EscapeSequence('ifdim')] + [Other(c) for c in '%dsp' % t[1]] + [Other('<')] + [Other(c) for c in '%dsp' % t[3]] + [EscapeSequence('relax')]
+            elif k == 'D': g = [EscapeSequence('ifdim')] + dopnd(t[1]) + [Other('<')] + dopnd(t[3]) + [EscapeSequence('relax')]
             elif k == 'O': g = [EscapeSequence('ifodd')] + opnd(t[1])
             elif k == 'K': g = [EscapeSequence('ifcase')] + opnd(t[1])
             elif k == 'X': g = [EscapeSequence('ifx')] + [Letter(chr(x[1])) if x[0] == 'c' else EscapeSequence(xtname(x)) for x in (t[1], t[2])]
@@ -680,7 +749,7 @@ def impl(case, aux):
     if st == 'ifscanwf':
         return run_processif(f[0], aux[0].split() if aux and aux[0] else [])
     seed = (case.meta or {}).get('seed', 0)
-    init = [int(x) for x in f[0].split(',')]
+    init = parse_init(f[0])
     if st == 'cond':
         body, _ = p_body(f, 1)
         sp = Speller(seed)
@@ -752,7 +821,7 @@ def shrink(ctx, o, evaluate):
         cands.sort(key=lambda v: len(body_w(v)))
         cs = []
         for v in cands[:60]:
-            c = mk_cond([int(x) for x in f[0].split(',')], v, (best.case.meta or {}).get('seed', 0))
+            c = mk_cond(f[0], v, (best.case.meta or {}).get('seed', 0))
             c.origin = 'shrink'
             cs.append(c)
         nxt = None
